@@ -49,10 +49,25 @@ pub fn main(args: &crate::Args) {
         }
         let n = it.bytes.len();
         let stride = if quick && n > 1200 { (n / 300).max(1) } else { 1 };
+        // every cut in the first 200 bytes (image header, first frame header, TOC and its permutation) and around
+        // every frame start, whatever the stride used for the bulk of a large stream
+        let mut dense: std::collections::BTreeSet<usize> = (1..n.min(200)).collect();
+        if let Some((o, _)) = &wholes[ii] {
+            for off in o.offsets.iter().flatten() {
+                for c in off.saturating_sub(3)..=(off + 40).min(n - 1) {
+                    if c >= 1 {
+                        dense.insert(c);
+                    }
+                }
+            }
+        }
         let mut c = 1;
         while c < n {
-            jobs.push((ii, vec![c], vec![true]));
+            dense.insert(c);
             c += stride;
+        }
+        for c in dense {
+            jobs.push((ii, vec![c], vec![true]));
         }
         // pairs of cuts with render attempts at every subset of the two cut points
         let lim = if quick { 80 } else { 160 };
